@@ -410,6 +410,14 @@ impl Scale {
     pub fn new(u: u128) -> Self {
         Scale { u, anomalies: RefCell::new(vec![]) }
     }
+    /// the scale a run's configuration asks for: 2^scale, or (2^128-1)/scaleDiv - with a divisor of 2^128-1 (255 =
+    /// 2^8-1) the largest model amount is exactly u128::MAX, so "the maximal value" is a reachable amount
+    pub fn of_cfg(cfg: &Value) -> Self {
+        match cfg.get("scaleDiv").and_then(|x| x.as_u64()) {
+            Some(d) if d > 0 => Scale::new(u128::MAX / d as u128),
+            _ => Scale::new(1u128 << cfg.get("scale").and_then(|x| x.as_u64()).unwrap_or(0)),
+        }
+    }
     pub fn up(&self, units: u64) -> u128 {
         (units as u128).checked_mul(self.u).unwrap_or_else(|| panic!("harness: {units} units do not fit u128 at scale {}", self.u))
     }
